@@ -20,9 +20,10 @@ class C11(BaseCheck):
           'before transmission (stalled writer) and after, server-side connection kills (re-opens through the '
           'resurrector) and, in adversarial cases, frames injected by the peer: duplicated replies, replies '
           'for never-issued tags just above the high-water mark, Rerr/Rdispatch on the reserved tags 0 and '
-          '1, tags >= 2^24-1. Per connection the unanswered-tag set U is maintained from the decoded frames '
+          '1, tags >= 2^24-1, never-issued tags one high bit away from a recent tag. Per connection the unanswered-tag set U is maintained from the decoded frames '
           'and the client\'s read offsets: each Tdispatch tag must be in [2, 2^24-2] and not in U; at the '
-          'end the highest tag must be <= 1 + peak(calls in flight + timed-out-unanswered). Function level: '
+          'end the highest tag must be <= 1 + peak(calls in flight + timed-out-unanswered; per-connection send '
+          'queue order from a tap on the transport\'s entry point). Function level: '
           'icontract conditions on TagPool.get/release against a shadow lease set. non-trivial = at least '
           '10 requests decoded; distinct by (transport, adversarial frame classes, timeout classes, re-opens, '
           'concurrency bucket)')
@@ -32,7 +33,7 @@ class C11(BaseCheck):
              'scales.kafka.sink:KafkaTransportSink._ProcessReply')
   REQUIRED_ANCHORS = ANCHORS
   REQUIRED_CLASSES = ('thriftmux', 'kafka', 'adv:duplicate-reply', 'adv:unknown-tag', 'adv:reserved-tag-1',
-                      'adv:tag-0', 'adv:huge-tag', 'timeout-before-send', 'timeout-after-send', 're-open',
+                      'adv:tag-0', 'adv:huge-tag', 'adv:bitflip-tag', 'timeout-before-send', 'timeout-after-send', 're-open',
                       'tag-reuse')
   ASSUMPTIONS = ('a tag counts as answered when the client has read the last byte of any R-frame carrying it '
                  '(known from the simulated socket\'s read offsets)',)
@@ -90,6 +91,28 @@ class C11(BaseCheck):
       get._verif = release._verif = True
       ms.TagPool.get, ms.TagPool.release = get, release
       self.contracts = 'plain-wrapper'
+
+    # observation tap: which transport instance (= connection, tag pool) a call was queued on
+    self.route = {}
+    self.n_transports = 0
+    if not getattr(ms.MuxSocketTransportSink.AsyncProcessRequest, '_verif', False):
+      orig = ms.MuxSocketTransportSink.AsyncProcessRequest
+
+      def AsyncProcessRequest(self_, sink_stack, msg, stream, headers):
+        tid = self_.__dict__.get('_verif_tid')
+        if tid is None:
+          check.n_transports += 1
+          tid = self_.__dict__['_verif_tid'] = check.n_transports
+        a0 = msg.args[0] if getattr(msg, 'args', None) else None
+        if isinstance(a0, str) and a0.startswith('c') and '-' in a0:
+          try:
+            check.route[int(a0[1:a0.index('-')])] = tid
+          except ValueError:
+            pass
+        return orig(self_, sink_stack, msg, stream, headers)
+      AsyncProcessRequest._verif = True
+      AsyncProcessRequest.__wrapped__ = orig
+      ms.MuxSocketTransportSink.AsyncProcessRequest = AsyncProcessRequest
 
   def finish(self, env, tier):
     return {'contract_evaluations': self.contract_evals}
@@ -185,6 +208,7 @@ class C11(BaseCheck):
     from vlib import muxcodec as mc, servers
     from vlib.stackworld import StackWorld
     classes = {'thriftmux'}
+    self.route = {}
     adversarial = rng.random() < 0.5
     n_eps = rng.choice([1, 1, 2])
     conc = rng.choice([1, 3, 8, 20, 40])
@@ -220,7 +244,7 @@ class C11(BaseCheck):
       conn = live[-1]
       seen = [q['tag'] for q in s.requests if q['conn'] == conn.id]
       hi = max(seen or [1])
-      k = rng.choice(['duplicate-reply', 'unknown-tag', 'reserved-tag-1', 'tag-0', 'huge-tag'])
+      k = rng.choice(['duplicate-reply', 'unknown-tag', 'reserved-tag-1', 'tag-0', 'huge-tag', 'bitflip-tag'])
       adv_classes.add(k)
       classes.add('adv:' + k)
       body = mc.rdispatch_body(mc.ST_ERROR, [], b'adversarial')
@@ -235,6 +259,11 @@ class C11(BaseCheck):
                    0.0, None, 'adv:1')
       elif k == 'tag-0':
         conn.write(mc.rerr(0, b'zero'), 0.0, None, 'adv:0')
+      elif k == 'bitflip-tag':
+        # a never-issued tag that differs from a recent (possibly unanswered) one in one high bit
+        t = rng.choice(seen[-8:] or [2]) | (1 << rng.choice([23, 23, 22, 20, 16, 12]))
+        conn.write(rng.choice([mc.frame(mc.R_DISPATCH, t, body), mc.rerr(t, b'flip')]), rng.random() * 0.005, None,
+                   'adv:%d' % t)
       else:
         t = rng.choice([MAXTAG + 1, MAXTAG, 1 << 23])
         conn.write(mc.rerr(t, b'huge'), 0.0, None, 'adv:%d' % t)
@@ -283,14 +312,14 @@ class C11(BaseCheck):
         a0 = q['call'][1][0] if q.get('call') and q['call'][1] else ''
         if isinstance(a0, str) and a0.startswith('c'):
           req_of.setdefault(int(a0[1:a0.index('-')]), q)
-    first_written_after = []      # (issue_seq, written_seq) of every written call
+    # per transport instance: the FIFO send queue (and the tag pool) is per connection
+    first_written_after = {}      # transport -> [(issue_seq, written_seq)] of every written call
     for r in w.calls:
       q = req_of.get(r['cid'])
       if q is not None:
         wtag, wseq = self.written.get((q['conn'], q['start']), (None, None))
         if wseq is not None:
-          first_written_after.append((r['issue_seq'], wseq))
-    first_written_after.sort()
+          first_written_after.setdefault(self.route.get(r['cid']), []).append((r['issue_seq'], wseq))
     INF = float('inf')
     evs = []
     for r in w.calls:
@@ -306,8 +335,13 @@ class C11(BaseCheck):
           ans = [sq for (c_, t_, sq) in self.answered if c_ == q['conn'] and t_ == q['tag'] and sq > wseq]
           release = max(release, min(ans)) if ans else INF
         else:
-          later = [ws for (isq, ws) in first_written_after if isq > r['issue_seq'] and ws > c0['seq']]
-          release = min(later) if later else INF
+          tid = self.route.get(r['cid'])
+          if tid is None:
+            release = c0['seq']     # never reached a transport: never held a tag
+          else:
+            later = [ws for (isq, ws) in first_written_after.get(tid, ())
+                     if isq > r['issue_seq'] and ws > c0['seq']]
+            release = min(later) if later else INF
       if release != INF:
         evs.append((release, -1))
     peak = cur = 0
